@@ -113,3 +113,83 @@ Example C04_example : let es := [ {| e_start := 0; e_end := 1000; e_rest := [] |
   starts_sorted es /\ filter (bkeep 500 600) es = [ {| e_start := 0; e_end := 1000; e_rest := [] |} ]
   /\ filter (bchunk_hit 500 600) (sections_loop 2 [] es) = [firstn 2 es].
 Proof. cbv zeta. split; [repeat constructor; cbn; lia|]. split; vm_compute; reflexivity. Qed.
+
+(* ---------------------------------------------------------------- COMPRESSED files
+   The same on the bytes of the compressor-parametric writer model (Model/BigBedWriteZ.v: every data and zoom block
+   through [cmp] when options.compress is set, uncompress_buf_size in the header, level selection on compressed sizes),
+   for EVERY compressor and every decompressor with  infl (cmp b) = b  (asked only when options.compress is set).
+   [ubuf_fits]: when blocks are compressed every block is shorter than 2^32 bytes before compression (u32 header field);
+   see Properties/C02.v (C02_ubuf_fits_of_bounds). *)
+From BT Require Import Model.BigWigWriteZ Model.BigBedWriteZ Proofs.BedFileZ Proofs.BedFileZThms.
+
+Theorem C04_written_file_query_compressed : forall cmp two_pass fp o sizes autosql input f,
+  bb_write_either_z cmp two_pass fp o sizes autosql input = Ok f -> file_hyps o sizes input f -> ubuf_fits o input ->
+  exists i, read_info f = Ok i /\ forall infl, (o_compress o = true -> forall b, infl (cmp b) = b) ->
+    forall c es s e, In (c, es) (bruns input) -> bb_interval infl f i c s e = Ok (filter (bkeep s e) es).
+Proof. exact written_file_query_compressed. Qed.
+Print Assumptions C04_written_file_query_compressed.
+
+(* the property's own wording on the compressed file *)
+Theorem C04_file_no_miss_no_disjoint_compressed : forall cmp two_pass fp o sizes autosql input f,
+  bb_write_either_z cmp two_pass fp o sizes autosql input = Ok f -> file_hyps o sizes input f -> ubuf_fits o input ->
+  exists i, read_info f = Ok i /\ forall infl, (o_compress o = true -> forall b, infl (cmp b) = b) ->
+    forall c es s e, In (c, es) (bruns input) ->
+    exists ans, bb_interval infl f i c s e = Ok ans
+      /\ (forall x, In x es -> e_start x < e -> s < e_end x -> In x ans)
+      /\ (forall x, In x ans -> In x es /\ s <= e_end x /\ e_start x <= e)
+      /\ ans = filter (bkeep s e) es.
+Proof. exact written_file_no_miss_no_disjoint_compressed. Qed.
+Print Assumptions C04_file_no_miss_no_disjoint_compressed.
+
+(* HISTORY on such files: through one caching reader - from the empty cache, or from any cache state satisfying the
+   invariant (a reopened reader) - every answer of every finite query history equals the stateless answer, and every
+   answer about a chromosome that had data is exactly the filter of its entries: earlier queries, cached index nodes
+   and cached INFLATED blocks never change a later answer *)
+Theorem C04_history_compressed : forall cmp two_pass fp o sizes autosql input f,
+  bb_write_either_z cmp two_pass fp o sizes autosql input = Ok f -> file_hyps o sizes input f -> ubuf_fits o input ->
+  exists i, read_info f = Ok i /\ forall infl, (o_compress o = true -> forall b, infl (cmp b) = b) ->
+    forall c qs, cache_ok infl f i c ->
+      c_bb_history infl f i c qs = map (fun q => bb_interval infl f i (fst (fst q)) (snd (fst q)) (snd q)) qs
+      /\ Forall2 (fun q a => forall es, In (fst (fst q), es) (bruns input) -> a = Ok (filter (bkeep (snd (fst q)) (snd q)) es))
+                 qs (c_bb_history infl f i c qs).
+Proof. exact written_file_history_compressed. Qed.
+Print Assumptions C04_history_compressed.
+
+(* Non-vacuity: blocks whose largest end is not the last entry's end, written compressed with the toy compressor by
+   both writers; a query that only the first entry of the first block meets; a history with repeats through the
+   caching reader *)
+Definition c04z_opts : opts := {| o_compress := true; o_ips := 2; o_bs := 2; o_izoom := 160; o_maxzooms := 10; o_manual := Some [64]; o_sort_all := true |}.
+Definition c04z_name : name := [99; 49].
+Definition c04z_entries : list entry :=
+  [ {| e_start := 0; e_end := 1000; e_rest := [] |}; {| e_start := 10; e_end := 20; e_rest := [120] |};
+    {| e_start := 12; e_end := 13; e_rest := [] |}; {| e_start := 700; e_end := 710; e_rest := [] |}; {| e_start := 900; e_end := 901; e_rest := [] |} ].
+Definition c04z_input : list bitem := map (fun x => (c04z_name, x)) c04z_entries.
+Example C04_compressed_example :
+  (o_bs c04z_opts <= 65535 /\ Nlen (bruns c04z_input) < RTreeCodec.U16 /\ input_ok c04z_input
+   /\ Forall (fun s : name * N => snd s < RTreeCodec.U32) [(c04z_name, 2000)])
+  /\ ubuf_fits c04z_opts c04z_input /\ (forall b, toy_infl (toy_cmp b) = b)
+  /\ match bb_write_z toy_cmp Float.ieee c04z_opts [(c04z_name, 2000)] None c04z_input,
+           bb_write_multipass_z toy_cmp Float.ieee c04z_opts [(c04z_name, 2000)] None c04z_input with
+     | Ok f, Ok f2 =>
+         Nlen f <= RTreeCodec.U64 /\ Nlen f2 <= RTreeCodec.U64
+         /\ match read_info f, read_info f2 with
+            | Ok i, Ok i2 =>
+                bb_interval toy_infl f i c04z_name 500 600 = Ok [ {| e_start := 0; e_end := 1000; e_rest := [] |} ]
+                /\ bb_interval toy_infl f2 i2 c04z_name 500 600 = Ok [ {| e_start := 0; e_end := 1000; e_rest := [] |} ]
+                /\ c_bb_history toy_infl f i cache0 [(c04z_name, 500, 600); (c04z_name, 0, 2000); (c04z_name, 500, 600); (c04z_name, 705, 900)]
+                   = [Ok [ {| e_start := 0; e_end := 1000; e_rest := [] |} ]; Ok c04z_entries; Ok [ {| e_start := 0; e_end := 1000; e_rest := [] |} ];
+                      Ok [ {| e_start := 0; e_end := 1000; e_rest := [] |}; {| e_start := 700; e_end := 710; e_rest := [] |};
+                           {| e_start := 900; e_end := 901; e_rest := [] |} ]]
+            | _, _ => False end
+     | _, _ => False
+     end.
+Proof.
+  split; [|split; [|split; [exact toy_rt|vm_compute; repeat split; try reflexivity; discriminate]]].
+  - split; [cbn; lia|]. split; [vm_compute; reflexivity|]. split.
+    + unfold input_ok, c04z_input, c04z_entries. repeat constructor; cbn [fst snd e_start e_end e_rest];
+        try (unfold RTreeCodec.U32; vm_compute; reflexivity); try discriminate; try (intros [? ?]; discriminate).
+    + repeat constructor; cbn; unfold RTreeCodec.U32; lia.
+  - intros _. split; [cbn; unfold RTreeCodec.U32; lia|].
+    apply (blocks_fit_of_bounds c04z_opts c04z_input 1); [cbn; lia|cbn; unfold RTreeCodec.U32; lia|].
+    unfold c04z_input, c04z_entries. cbn [map]. repeat (constructor; [cbn; lia|]). constructor.
+Qed.
